@@ -8,6 +8,9 @@ PROM_BINS = {"c18", "c07", "c08", "c15", "c12p"}
 TRACE_BINS = {"c17"}      # replay programs that need the Prometheus exporter (own crate: hyper/tokio are slow to build)
 
 
+MARKS = {"push_done", "read_begin", "empty_begin"}
+
+
 def plan_text(scenario, violated, threads, sched_rows, inputs):
     """threads: {tid: role}; sched_rows: rows of check.schedule_from_model; inputs: {name: int}"""
     lines = [f"scenario {scenario}", f"violated {violated}"]
@@ -15,7 +18,8 @@ def plan_text(scenario, violated, threads, sched_rows, inputs):
         lines.append(f"input {k} {v}")
     for t, role in threads.items():
         lines.append(f"thread {t} {role}")
-    order = [str(r[1]) for r in sched_rows if str(r[4]).endswith("@site") and int(r[1]) in threads]
+    # scheduled steps: the instrumented accesses, and the scenario's own markers (the replay program yields at the same points)
+    order = [str(r[1]) for r in sched_rows if (str(r[4]).endswith("@site") or str(r[4]) in MARKS) and int(r[1]) in threads]
     lines.append("sched " + " ".join(order))
     return "\n".join(lines) + "\n"
 
